@@ -521,7 +521,7 @@ func genNaiveCase(rnd *hx.Rand) []string {
 		if rnd.Chance(1, 4) {
 			d = g.dirs[rnd.Intn(len(g.dirs))]
 		}
-		g.lines = append(g.lines, "nmerge "+tokDig(d.hash, d.size))
+		g.lines = append(g.lines, strings.Join(append([]string{"nmerge", tokDig(d.hash, d.size)}, g.genNaiveFaults(d)...), " "))
 		// between two actions: the cache directory is cleaned up behind the worker's back,
 		// entries are replaced by directories, the storage loses blobs
 		for k := rnd.Intn(4); k > 0 && hardlink == 1; k-- {
